@@ -54,7 +54,7 @@ type cbRec struct {
 
 func TestC17_ReadAndWriteInFlight(t *testing.T) {
 	rec := evid.For("C17")
-	rec.SetRule("rapid schedules on a real handshake against a raw harness server over the real AsyncAdapter: peer sends data messages (1-2 fragments), pings, optionally a close; the application starts AsyncNextFrame/AsyncNextMessage (one read outstanding), AsyncWrite/AsyncWriteFrame/AsyncFlush (up to three application writes outstanding), AsyncClose, in generated positions relative to PollOne calls, and completion callbacks that themselves re-arm the read and/or start the next write (echo-style, generated per callback), in particular an application write issued while the read path's automatic Pong flush has not completed; peer drains; oracle: every user callback is invoked exactly once (after everything was made completable and readiness confirmed, within 40 PollOne calls), reads deliver the peer's frames/messages in order, the server-side byte stream parses completely into the expected frames in submission order (pongs echo their ping), IO.Pending() returns to 0 when nothing is outstanding; non-trivial = an application write issued while a control-reply flush was in flight, or a read and a write callback in the same PollOne; distinct = hash of the schedule")
+	rec.SetRule("rapid schedules on a real handshake against a raw harness server over the real AsyncAdapter: peer sends data messages (1-2 fragments), pings, optionally a close; the application starts AsyncNextFrame/AsyncNextMessage (one read outstanding), AsyncWrite/AsyncWriteFrame/AsyncFlush (up to three application writes outstanding), AsyncClose, in generated positions relative to PollOne calls, and completion callbacks that themselves re-arm the read and/or start the next write (echo-style, generated per callback), in particular an application write issued while the read path's automatic Pong flush has not completed; peer drains; the session ends (epilogue, with a read and/or a write in flight) with nothing, AsyncClose followed by the peer's reply, or the peer's Close followed by AsyncFlush, plus a late AsyncWrite that must be refused; oracle: exactly one Close on the wire and nothing after it, every user callback is invoked exactly once (after everything was made completable and readiness confirmed, within 40 PollOne calls), reads deliver the peer's frames/messages in order, the server-side byte stream parses completely into the expected frames in submission order (pongs echo their ping), IO.Pending() returns to 0 when nothing is outstanding; non-trivial = an application write issued while a control-reply flush was in flight, or a read and a write callback in the same PollOne; distinct = hash of the schedule")
 	rec.Assume("messages <= 2 KiB so that the adapter's blocking net.Conn.Write always fits the socket buffer; one read outstanding at a time, up to three application writes (they queue behind whatever flush is in flight; the automatic control replies of the read path are the overlap under test)")
 	overlapKnown := known.Listed("C17", "overlapping-flush-drops-continuation")
 	vt.CheckSteps(t, 200, 25, func(rt *rapid.T) {
@@ -454,6 +454,131 @@ func TestC17_ReadAndWriteInFlight(t *testing.T) {
 		if ioc.Pending() != 0 {
 			rt.Fatalf("IO.Pending()=%d with no operation outstanding; trace=%v", ioc.Pending(), trace)
 		}
+		// --- epilogue: how the session ends, with a read and/or a write in flight at that moment
+		ending := "none"
+		if !readEOF && !closedByUs && !peerClosed && s.State() == websocket.StateActive {
+			ending = rapid.SampledFrom([]string{"none", "asyncClose", "asyncClose", "peerClose", "peerClose"}).Draw(rt, "ending")
+		}
+		pollUntil := func(what string, done func() bool) {
+			for i := 0; i < 60 && !done(); i++ {
+				if readCb != nil {
+					sysx.WaitReadable(cfd, 5)
+				}
+				poll()
+				checkNow()
+			}
+			if !done() {
+				r, _ := sysx.PollFd(cfd, sysx.POLLIN|sysx.POLLOUT, 0)
+				rt.Fatalf("%s: callbacks never invoked: %v (client socket revents=%#x, %d bytes unread, Pending()=%d) after 60 more poll cycles; trace=%v", what, outstanding(), r, sysx.Unread(cfd), ioc.Pending(), trace)
+			}
+		}
+		collect := func() {
+			for i := 0; i < 50; i++ {
+				drainSrv()
+				if !sysx.WaitReadable(srv, 5) {
+					break
+				}
+			}
+		}
+		// readUntilClose keeps one frame read outstanding until the peer's Close has been delivered (earlier frames of the
+		// peer may still be queued in front of it).
+		readUntilClose := func(what string) {
+			for k := 0; k < 200 && !peerClosed && !readEOF; k++ {
+				if readCb == nil {
+					startRead(false)
+				}
+				pollUntil(what, func() bool { return readCb == nil })
+			}
+			if !peerClosed {
+				fail("%s: the peer's Close frame was never delivered by a read (readEOF=%v)", what, readEOF)
+			}
+			pollUntil(what, func() bool { return len(outstanding()) == 0 })
+		}
+		if ending != "none" {
+			log("ending:%s", ending)
+			withRead := rapid.Bool().Draw(rt, "endRead")
+			withWrite := rapid.Bool().Draw(rt, "endWrite")
+			if withRead && readCb == nil {
+				startRead(false) // stays in flight: nothing inbound
+			}
+			if withWrite {
+				appWrite("AsyncWrite")
+			}
+			switch ending {
+			case "asyncClose":
+				cr := &cbRec{what: fmt.Sprintf("close#%d", len(cbs))}
+				cbs = append(cbs, cr)
+				log("AsyncClose#%d", len(cbs)-1)
+				s.AsyncClose(websocket.CloseNormal, "bye", func(err error) { noteCb(cr, err); log("cb:%s(%v)", cr.what, err) })
+				closedByUs = true
+				expWire = append(expWire, expOut{op: rfc6455.OpClose, payload: rfc6455.ClosePayload(1000, "bye"), what: "local close"})
+				if st := s.State(); st != websocket.StateClosedByUs {
+					fail("State()=%v right after AsyncClose, want closed-by-us", st)
+				}
+				// a write submitted after the Close is refused, exactly once, and never reaches the wire
+				lr := &cbRec{what: fmt.Sprintf("latewrite#%d", len(cbs))}
+				cbs = append(cbs, lr)
+				s.AsyncWrite([]byte("late"), websocket.TypeText, func(err error) { noteCb(lr, err) })
+				pollUntil("after AsyncClose", func() bool {
+					for _, r := range cbs {
+						if r.calls == 0 && r != readCb {
+							return false
+						}
+					}
+					return true
+				})
+				if cr.err != nil {
+					fail("AsyncClose on a healthy connection completed with %v", cr.err)
+				}
+				if lr.err == nil {
+					fail("AsyncWrite after AsyncClose completed without an error")
+				}
+				// the peer answers; the read (in flight or started now) sees the Close exactly once
+				peerSend(rfc6455.Frame{Fin: true, Opcode: rfc6455.OpClose, Payload: rfc6455.ClosePayload(1000, "bye"), LenBytes: -1})
+				readUntilClose("peer's Close reply")
+			case "peerClose":
+				peerSend(rfc6455.Frame{Fin: true, Opcode: rfc6455.OpClose, Payload: rfc6455.ClosePayload(1001, "going"), LenBytes: -1})
+				readUntilClose("peer's Close")
+				if st := s.State(); st == websocket.StateActive {
+					fail("State() still active after the peer's Close was read")
+				}
+				// the reply goes out with the next flush, once
+				fr := &cbRec{what: fmt.Sprintf("replyflush#%d", len(cbs))}
+				cbs = append(cbs, fr)
+				s.AsyncFlush(func(err error) { noteCb(fr, err) })
+				lr := &cbRec{what: fmt.Sprintf("latewrite#%d", len(cbs))}
+				cbs = append(cbs, lr)
+				s.AsyncWrite([]byte("late"), websocket.TypeText, func(err error) { noteCb(lr, err) })
+				pollUntil("reply flush", func() bool { return len(outstanding()) == 0 })
+				if lr.err == nil {
+					fail("AsyncWrite after the peer's Close completed without an error")
+				}
+			}
+			checkNow()
+			collect()
+			if p := matchWire(wire, expWire); p != "" {
+				rt.Fatalf("server side after %s: %s; trace=%v", ending, p, trace)
+			}
+			closes := 0
+			fs, _ := rfc6455.ParseAll(wire)
+			for i, f := range fs {
+				if f.Opcode == rfc6455.OpClose {
+					closes++
+					if i != len(fs)-1 {
+						fail("a frame follows the client's Close on the wire: %v", fs[i+1])
+					}
+				}
+			}
+			if closes != 1 {
+				fail("%d Close frames on the wire after %s, want exactly one", closes, ending)
+			}
+			checkNow()
+			for _, r := range cbs {
+				if r.calls != 1 {
+					rt.Fatalf("%s callback invoked %d times by the end of the session; trace=%v", r.what, r.calls, trace)
+				}
+			}
+		}
 		rec.ExcludedKnown(excluded)
 		var cls []string
 		if overlapWrite {
@@ -464,6 +589,9 @@ func TestC17_ReadAndWriteInFlight(t *testing.T) {
 		}
 		if fromCallback {
 			cls = append(cls, "operations-started-from-callbacks")
+		}
+		if ending != "none" {
+			cls = append(cls, "ending-"+ending)
 		}
 		rec.Case(strings.Join(trace, ","), overlapWrite || sameCycle, cls, map[string]any{"schedule": trace})
 	})
